@@ -391,14 +391,18 @@ def b_other(ctx):
         except Exception as e:   # noqa
             ctx.fail(f'C19:mapping:raises:{type(e).__name__}', f'meshmapper raises {type(e).__name__}: {e}', {'mesh': size, 'node_ids': nn})
         # hot spots
-        for fi in range(3):
+        for fi in range(4):
             vals = rng.uniform(0, 1, len(mesh)) ** 3
+            if fi == 3:
+                # a field whose maximum is NEGATIVE (compressive / minimum principal stress): "at or above limit_frac x max" is meant literally, fractions above
+                # one widen the region (added after seed C19-i divided by the maximum, which reverses the comparison for a negative maximum)
+                vals = -0.5 - vals
             # nodal values: one value per node (mesh rows of one node share it)
             # fields 0 and 1 nodal (rows of one node share the value), field 2 element-nodal (one value per row)
-            node_val = pd.Series(vals, index=mesh.index).groupby('node_id').transform('first') if fi < 2 else pd.Series(vals, index=mesh.index)
+            node_val = pd.Series(vals, index=mesh.index).groupby('node_id').transform('first') if fi in (0, 1, 3) else pd.Series(vals, index=mesh.index)
             hs = mesh.copy()
             hs['v'] = node_val
-            for frac in (0.3, 0.6, 0.9, 1.0):
+            for frac in ((0.3, 0.6, 0.9, 1.0) if fi < 3 else (0.9, 1.0, 1.25, 2.0)):
                 ctx.case(True, key=('hotspot', size, nn, fi, frac))
                 try:
                     lab = hs.hotspot.calc('v', frac)
